@@ -560,6 +560,10 @@ Dot11ManagementFrame::country_params::from_option(const option& opt) {
         output.number_channels.push_back(*(ptr++));
         output.max_transmit_power.push_back(*(ptr++));
     }
+    // The element is padded with one octet when its length would be odd
+    if (end - ptr == 1 && opt.data_size() % 2 == 0) {
+        ptr++;
+    }
     if (ptr != end) {
         throw malformed_option();
     }
